@@ -36,7 +36,7 @@ Final == <<SPrint(Nn), SPrint(Xs), SPrint(EProp(Ob, KA)), SPrint(EProp(Ob, KB)),
 Payloads == {"declare", "assign", "opassign", "listdestruct", "objdestruct", "idxassign", "propassign",
              "rangeassign", "print", "interp", "spreadcall", "closure", "method", "typefn", "concat",
              "compare", "rangeidx", "newkey", "strops", "break", "continue", "return", "error",
-             "nestinterp", "rebind", "loopmutate", "sloterror", "slotcallerror"}
+             "nestinterp", "rebind", "loopmutate", "sloterror", "slotcallerror", "cmplen", "bytelen"}
 Payload(p) ==
     CASE p = "declare"  -> <<SDecl(Tmp(1), EBin("+", Nn, I(10))), SPrint(Tmp(1))>>
       [] p = "assign"   -> <<SAssign(Nn, EBin("*", Nn, I(2))), SPrint(Nn)>>
@@ -86,6 +86,12 @@ Payload(p) ==
       [] p = "sloterror"   -> <<SPrint(I(77)), SPrint(EIStr(<<Lit(<<60>>), SlotP(0, EBin("+", Nn, Sv)), Lit(<<62>>)>>))>>
       [] p = "slotcallerror" -> <<SFn(<<115, 99>>, <<>>, FALSE, <<SReturn(EBin("+", Sv, Nn))>>),
                                   SPrint(EIStr(<<Lit(<<195, 169, 10>>), SlotP(0, ECall(Nm(<<115, 99>>), <<>>)), Lit(<<62>>)>>))>>
+      \* lists of different lengths are unequal whatever they hold; a piece of a character has no ->len
+      [] p = "cmplen"      -> <<SPrint(EBin("==", EList(<<I(1), Sv>>), EList(<<Sv>>))),
+                                SPrint(EBin("!=", EBin("+", Xs, EList(<<Sv>>)), EList(<<Sv, I(2)>>))),
+                                SPrint(EBin("==", EList(<<EList(<<I(1), Sv>>)>>), EList(<<EList(<<Sv>>)>>)))>>
+      [] p = "bytelen"     -> <<SPrint(ECall(ETProp(ERIndex(Sv, ENone, I(1)), N_len), <<>>)),
+                                SDecl(Tmp(1), ETProp(ERIndex(Sv, I(1), I(2)), N_len)), SPrint(I(78)), SPrint(ECall(Tmp(1), <<>>))>>
       \* a variable that held a method read from one object is assigned the method read from another
       [] p = "rebind"      -> <<SDecl(Tmp(1), EProp(Ob, <<103, 101, 116>>)),
                                 SDecl(Tmp(2), EObj(<<Pair(EStr(KA), I(77)), Pair(EStr(<<103, 101, 116>>), EProp(Ob, <<103, 101, 116>>))>>)),
